@@ -112,6 +112,30 @@ Theorem C29_not_found : forall T cur nreq treq fs last,
 Proof. exact not_found. Qed.
 Print Assumptions C29_not_found.
 
+(* HISTORIES: after ANY sequence of open requests (found or not, any names and type filters) on a tape of
+   acceptable, skippable files, every answer is either Device Timeout or a file of the tape that matches the
+   request, returned exactly as written; between requests the device is closed with the head at a file boundary. *)
+Theorem C29_session_sound : forall fs, Forall file_ok fs -> Forall skippable fs -> forall reqs st,
+  Forall (fun q => illegal_name (fst q) = false) reqs -> at_boundary fs st ->
+  Forall2 (fun q o => response_ok fs (fst q) (snd q) o) reqs (session st reqs).
+Proof. exact session_sound. Qed.
+Print Assumptions C29_session_sound.
+
+Theorem C29_session_starts_at_boundary : forall fs, Forall file_ok fs -> at_boundary fs (rst0 (write_tape fs)).
+Proof. exact at_boundary_start. Qed.
+Print Assumptions C29_session_starts_at_boundary.
+
+(* ... and a file that is on the tape is never lost: whatever was asked before, a request that matches it is
+   answered with a matching file at once or, after one Device Timeout (tape rewound), when repeated *)
+Theorem C29_found_within_two : forall fs st nreq treq f, Forall file_ok fs -> Forall skippable fs ->
+  illegal_name nreq = false -> at_boundary fs st -> In f fs -> matches nreq treq f = true ->
+  let r1 := open_read_all st nreq treq in
+  let r2 := open_read_all (fst (fst r1)) nreq treq in
+  (exists last g, In g fs /\ matches nreq treq g = true /\ snd r1 = OFile (view last g)) \/
+  (snd r1 = OErr 24 /\ exists last g, In g fs /\ matches nreq treq g = true /\ snd r2 = OFile (view last g)).
+Proof. exact found_within_two. Qed.
+Print Assumptions C29_found_within_two.
+
 (* PARTIAL: C29_search_isolation requires the files passed over to be `skippable` (passed_over includes
    it).  B/P/M files always are (whatever their contents, also empty: their data record is read while
    skipping, fix D29c).  A text/data file is not when its length is 164 (mod 255): its last count byte is
@@ -208,3 +232,14 @@ Example C29_bounded_nonvacuous :
   good (rd0 (text_records chunks)) /\
   read_plan 500 [100%nat] 0 (rd0 (text_records chunks)) [] [] = Some (concat chunks, [100; 100; 100; 100; 0], []).
 Proof. split; [right; vm_compute; reflexivity | vm_compute; reflexivity]. Qed.
+
+(* non-vacuity of the session theorems: the example tape, a history with a miss, a typed request and repeats *)
+Example C29_session_nonvacuous :
+  Forall skippable ex_files /\
+  map (fun o => match o with OFile v => zlen (rf_data v) | OErr e => - e end)
+      (session (rst0 (write_tape ex_files)) [([77], []); ([65], [tD]); ([65], [tD]); ([90], []); ([81], [])]) =
+  [513; -24; 254; 0; -24].
+Proof.
+  split; [repeat (constructor; [apply skippableb_ok; vm_compute; reflexivity|]); constructor|].
+  vm_compute. reflexivity.
+Qed.
